@@ -16,6 +16,7 @@ PHASE_LABELS = ("Fraction of positively charged residues", "Fraction of negative
 UV_LABELS = ("Mean net charge", "Mean hydropathy <H>")
 SEQS = ["KKEEGGSSPP", "KRKRKRKRGS", "GSGSGSGSGSGSGSGSKE"]
 LONGLABEL = "a rather long label for this point"
+TIES = ["KKKEGGSSPP", "EEEKGGSSPP", "KKKEAGSSPP"]       # markers sharing an x-coordinate on either diagram (f+ .3/.1/.3, |NCPR| .2/.2/.2)
 EXTREME = ["KKKKKKKKKE", "RRRRRRRRRRRR", "EEEEDEEEEK"]      # markers beyond 0.8 on either axis of either diagram
 
 
@@ -258,8 +259,9 @@ def check_config(case):
 
     def v(key, what):
         out.append({"key": key, "what": what, "case": case})
-    for si in range(len(SEQS) if n == 1 else 1):
-        objs = [SP(SEQS[si])] if n == 1 else [SP(s) for s in SEQS]
+    fam = TIES if case.get("family") == "ties" else SEQS
+    for si in range(len(fam) if n == 1 else 1):
+        objs = [SP(fam[si])] if n == 1 else [SP(s) for s in fam]
         for g in (True, False):
             P.close("all")
             calls += 1
@@ -560,6 +562,66 @@ def check_polygons(case):
     return out, calls
 
 
+def check_save_then_plot(case):
+    """A save in some format followed, WITHOUT the caller closing anything, by further plots in the same process: each later
+    figure shows exactly its own sequences (markers / bars), whatever format the earlier save used."""
+    ep, fmt = case["ep"], case["fmt"]
+    eps = entry_points()
+    kind, n, show, save = eps[ep]
+    out = []
+    calls = 0
+    P = plt()
+    cfg = {"label": "", "title": None, "legend": True, "xLim": 1, "yLim": 1, "font": 10}
+    if n > 1:
+        cfg = dict(cfg, label=None)
+
+    def v(key, what):
+        out.append({"key": key, "what": what, "case": case})
+    P.close("all")
+    first = [SP(SEQS[1])] if n == 1 else [SP(s_) for s_ in SEQS]
+    with SaveSpy(False) as spy:
+        try:
+            save(first, cfg, "/nonexistent/vmc_c19_first." + fmt, fmt)
+            calls += 1
+        except Exception as e:  # noqa
+            v("plot-raises:" + ep, "%s save(%s) raised %r" % (ep, fmt, e))
+    # ... and now, with nothing closed by the caller, other plots
+    for ep2 in ("SP.phaseDiagramPlot", "plots.multiple_uverskyPlot2", ep):
+        kind2, n2, show2, save2 = eps[ep2]
+        objs2 = [SP(TIES[0])] if n2 == 1 else [SP(s_) for s_ in EXTREME]
+        cfg2 = dict(cfg, label=None if n2 > 1 else "")
+        calls += 1
+        try:
+            fig = fig_of(show2(objs2, cfg2, True))
+        except Exception as e:  # noqa
+            v("plot-raises:" + ep2, "%s after %s save(%s) raised %r" % (ep2, ep, fmt, e))
+            continue
+        judge_fig(inspect(fig if fig is not None else P.gcf()), kind2, objs2, cfg2, ep2, "after %s save(%s), nothing closed by the caller" % (ep, fmt), case, out)
+        # a figure handed to the caller (getFig=True) is the caller's to close - and only that one; then the same save again
+        P.close(fig if fig is not None else P.gcf())
+        with SaveSpy(False):
+            try:
+                save(first, cfg, "/nonexistent/vmc_c19_again." + fmt, fmt)
+                calls += 1
+            except Exception as e:  # noqa
+                v("plot-raises:" + ep, "%s save(%s) raised %r" % (ep, fmt, e))
+    # the same for a linear profile saved in that format, then a different sequence shown
+    try:
+        o1, o2 = SP("KEGKEGKEGKEGKEG"), SP("GKRDESTYPAG")
+        with SaveSpy(False):
+            o1.save_linearNCPR("/nonexistent/vmc_c19_lin." + fmt, 3, saveFormat=fmt)
+        fig = fig_of(o2.show_linearNCPR(3, getFig=True))
+        calls += 2
+        d = inspect(fig if fig is not None else P.gcf())
+        if d is None or len(d["bars"]) != 11:
+            v("linear-bars:after-save", "show_linearNCPR of an 11-residue sequence after save_linearNCPR(%s) of a 15-residue one draws %s bars"
+              % (fmt, None if d is None else len(d["bars"])))
+    except Exception as e:  # noqa
+        v("plot-raises:linear", "linear save(%s)-then-show raised %r" % (fmt, e))
+    P.close("all")
+    return out, calls
+
+
 def check_case(case):
     if case["kind"] == "counts":
         return check_counts(case)
@@ -576,6 +638,8 @@ def check_case(case):
         return v, 1
     if case["kind"] == "config":
         return check_config(case)
+    if case["kind"] == "save-then-plot":
+        return check_save_then_plot(case)
     return check_linear(case)
 
 
@@ -635,6 +699,14 @@ def run(tier, seed, t0):
         for fmt in ("png", "pdf", "svg"):
             cases.append({"kind": "config", "ep": ep, "cfg": dict(dflt, label=None if "multiple" in ep else ""), "fmt": fmt,
                           "write": fmt != "png" or tier == "thorough"})
+    # labelled multi-sequence plots whose markers share an x-coordinate
+    for ep in eps:
+        if "multiple" in ep:
+            cases.append({"kind": "config", "ep": ep, "cfg": dict(dflt, label="pt"), "family": "ties"})
+    # a save in each format followed by further plots with nothing closed in between
+    for ep in eps:
+        for fmt in ("png", "pdf", "svg", "ps"):
+            cases.append({"kind": "save-then-plot", "ep": ep, "fmt": fmt})
     lin_seqs = ["KEGKE", "KKEEGGSSPP", "GKRDESTYPAG", ("KEGGSR" * 40)[:221]] + (["KEKEKEGGGGPPPPKKKKEEEE", ("RGGSSE" * 60)[:300]] if tier == "thorough" else [])
     for s in lin_seqs:
         for w in ((1, 2, 5) if tier == "quick" else range(1, min(len(s), 8) + 1)):
@@ -655,7 +727,7 @@ def run(tier, seed, t0):
              "single / multiple / multiple2) x the full product label{'', 'x', long} x title{default,custom} x legend x xLim{1,.5} x "
              "yLim{1,.5} x font{10,6} (96 configurations) on three sequences: markers at the true coordinates, requested title, axis "
              "labels, limits, point labels and font, a figure returned when getFig; every entry point x {png,pdf,svg} written to a "
-             "real temp file. (3) linear plots: show/save_linear{NCPR,FCR,Sigma,Hydropathy} x windows: N bars centred on 1..N with "
+             "real temp file; labelled multi-sequence plots of sequences whose markers share an x-coordinate; every entry point's save in {png,pdf,svg,ps} followed, with nothing closed by the caller, by three further plots (each returned figure closed by the caller, then the save repeated) and a linear profile of another sequence (each figure must show exactly its own markers / bars). (3) linear plots: show/save_linear{NCPR,FCR,Sigma,Hydropathy} x windows: N bars centred on 1..N with "
              "the heights of get_linear_*. save_* figures are inspected at the moment savefig is called. non-trivial = all but "
              "single-charge-type region cases" % (NK, NP, HN, len(ep_sel)),
         bounds={"region_K": NK, "entry_points": len(ep_sel), "configurations": len(cfgs), "linear_sequences": len(lin_seqs)},
